@@ -9,12 +9,14 @@ Definition pins : list string := ["usim/_basics/streams.py:Queue.closed";
   "usim/_basics/streams.py:Queue._await_message";
   "usim/_basics/streams.py:Queue.__aiter__";
   "usim/_basics/streams.py:Queue.put";
+  "usim/_basics/streams.py:Queue.__repr__";
   "usim/_basics/streams.py:StreamClosed.__init__";
   "usim/_primitives/locks.py:Lock.__init__";
   "usim/_primitives/locks.py:Lock.available";
   "usim/_primitives/locks.py:Lock.__aenter__";
   "usim/_primitives/locks.py:Lock.__aexit__";
   "usim/_primitives/locks.py:Lock.__release__";
+  "usim/_primitives/locks.py:Lock.__repr__";
   "usim/_primitives/locks.py:<module>";
   "usim/_primitives/locks.py:Lock.<attrs>";
   "usim/_primitives/notification.py:postpone";
@@ -27,6 +29,7 @@ Definition pins : list string := ["usim/_basics/streams.py:Queue.closed";
   "usim/_primitives/notification.py:Notification.__unsubscribe__";
   "usim/_primitives/notification.py:Notification.__subscription__";
   "usim/_primitives/notification.py:Notification.__del__";
+  "usim/_primitives/notification.py:Notification.__repr__";
   "usim/_primitives/notification.py:<module>";
   "usim/_primitives/notification.py:Notification.<attrs>";
   "usim/_basics/streams.py:<module>";
